@@ -91,10 +91,9 @@ def set (k : String) (v : Json) : Obj → Obj
   | [] => [(k, v)]
   | (k', v') :: r => if k' = k then (k, v) :: r else (k', v') :: set k v r
 
-/-- `del d[k]` guarded by `k in d` -/
-def erase (k : String) : Obj → Obj
-  | [] => []
-  | (k', v') :: r => if k' = k then r else (k', v') :: erase k r
+/-- `del d[k]` guarded by `k in d` (a Python dict holds a key at most once; on such lists this removes the one
+    entry, and it is total on all association lists) -/
+def erase (k : String) (o : Obj) : Obj := o.filter fun p => p.1 != k
 
 /-- `d.get(k)` with Python's `None` default -/
 def getD (k : String) (o : Obj) : Json := (get k o).getD .null
